@@ -175,7 +175,7 @@ def _digest_worker(args):
             if case is None:
                 out[i] = "none"
                 continue
-            res = mod.check(case)
+            res = mod.check(dict(case, _run={"index": i, "seed": seed, "tier": tier, "base": base}))
             h = hashlib.sha256(json.dumps(case, sort_keys=True, default=str).encode())
             h.update(repr((res.digest, res.sched, sorted((v.clause, v.sig, v.msg) for v in res.violations),
                            sorted((k, v) for k, v in res.stats.items() if not k.startswith("hist:")), sorted(res.keys))).encode())
@@ -285,6 +285,7 @@ def run_history(pid, hist):
             case = mod.make_case(i, rng, hist["tier"])
             if case is None:
                 continue
+            case["_run"] = {"index": i, "seed": seed, "tier": hist["tier"], "base": hist["base"]}
             res = mod.check(case)
             last = [v.as_dict() for v in res.violations]
         except Exception:
@@ -299,7 +300,7 @@ def history_replay(pid, case, v):
     if "start" not in r:
         return None
     seq = list(range(r["start"], r["index"] + 1, r["stride"]))
-    for m in (2, 3, 5, 9, 17, 33, 65, 129, len(seq)):
+    for m in (2, 3, 5, 9, 17, 33, 65, 129, 257, 513, 1025, 2049, 4097, len(seq)):
         if m > len(seq) and m != len(seq):
             m = len(seq)
         hist = {"base": r["base"], "tier": r["tier"], "indices": seq[-m:]}
